@@ -59,7 +59,9 @@ func checkC08(ctx *Ctx, r *Report, tier string) {
 	}
 	r.expectControl("U4", "verifCtlMsKernelNoDegenerate")
 	degenerateTest(ctx, r, "U4", "Line2", 2)
-	r.floor("U4", 2)
+	equalsAtZeroTolerance(ctx, r, "U4", "v2")
+	freshPrimitivePerIteration(ctx, r, "U4", kfn, "Line2")
+	r.floor("U4", 4)
 	kf, err := analyseKernel(ctx, kfn, 2, "msInterpolate")
 	if err != nil {
 		r.undecided("U5", "msToLines", kfn.Pos(), "kernel shape not recognised: "+err.Error())
